@@ -27,9 +27,22 @@ pub const PAIRS: Map<&[u8], PairInfoRaw> = Map::new("pair_info");
 
 pub fn pair_key(asset_infos: &[AssetInfoRaw; 2]) -> Vec<u8> {
     let mut asset_infos = asset_infos.to_vec();
-    asset_infos.sort_by(|a, b| a.as_bytes().cmp(b.as_bytes()));
+    asset_infos.sort_by(|a, b| {
+        a.as_bytes()
+            .cmp(b.as_bytes())
+            .then(a.is_native_token().cmp(&b.is_native_token()))
+    });
 
-    [asset_infos[0].as_bytes(), asset_infos[1].as_bytes()].concat()
+    // Each identifier is tagged with its kind and the first one is length-prefixed,
+    // so that two different unordered asset sets can never produce the same key
+    // (plain concatenation made {"aaa","bccc"} and {"aaab","ccc"} collide).
+    let first = asset_infos[0].as_bytes();
+    let mut key: Vec<u8> = vec![asset_infos[0].is_native_token() as u8];
+    key.extend_from_slice(&(first.len() as u64).to_be_bytes());
+    key.extend_from_slice(first);
+    key.push(asset_infos[1].is_native_token() as u8);
+    key.extend_from_slice(asset_infos[1].as_bytes());
+    key
 }
 
 // settings for pagination
@@ -57,13 +70,7 @@ pub fn read_pairs(
 // this will set the first key after the provided key, by appending a 1 byte
 fn calc_range_start(start_after: Option<[AssetInfoRaw; 2]>) -> Option<Vec<u8>> {
     start_after.map(|asset_infos| {
-        let mut asset_infos = asset_infos.to_vec();
-        asset_infos.sort_by(|a, b| a.as_bytes().cmp(b.as_bytes()));
-
-        let mut v = [asset_infos[0].as_bytes(), asset_infos[1].as_bytes()]
-            .concat()
-            .as_slice()
-            .to_vec();
+        let mut v = pair_key(&asset_infos);
         v.push(1);
         v
     })
